@@ -348,4 +348,134 @@ def standin_artifact_name(tier, seed):
     return dict(name=name, bound=bound, cases=n, status='ok')
 
 
-STANDINS = [standin_out_equals_convert, standin_artifact_name]
+# ------------------------------------------------------------------ "A second out statement in the same file is an error" -- whatever stands between the two
+# (the property statement; reference/statements.md "Out Statements": "The Out statement defines the output for a UCG file").  Every kind of statement / expression the
+# reference knows is put BETWEEN two out statements of one file.  Helper files: lib.ucg (bindings only), lib2.ucg (imports lib.ucg), libout.ucg (has an out
+# statement of its own), data.txt.  The first out writes {w = "FIRST"}, the second {w = "SECOND"}.
+# Demanded of a file with two outs: exit status != 0 and no artifact of the SECOND out: NAME.<ext of the second format> does not appear (different extensions) /
+# NAME.<ext> does not hold the second value (same extension).  What the refused build leaves of its FIRST out is not demanded either way.
+# Demanded of the CONTROL (the same statements followed by ONE out): exit 0, exactly one new file NAME.<ext> in the directory, holding FIRST.
+BETWEEN = [
+    ('nothing', ''),
+    ('a comment and blank lines', '// nothing to see\n\n\n'),
+    ('let statements', 'let a = 1;\nlet b = [a, 2];\nlet c = {d = b};\n'),
+    ('an import of a file without an out', 'let l = import "./lib.ucg";\n'),
+    ('an import whose value is used', 'let v = (import "./lib.ucg").v + 1;\n'),
+    ('an import of a file that imports another file', 'let l2 = import "./lib2.ucg";\n'),
+    ('two imports of the same file', 'let l = import "./lib.ucg";\nlet m = import "lib.ucg";\n'),
+    ('imports of two files', 'let l = import "./lib.ucg";\nlet l2 = import "./lib2.ucg";\n'),
+    ('an import from the standard library', 'let lists = import "std/lists.ucg";\nlet n = lists.len([1, 2]);\n'),
+    ('an import inside a function that is called', 'let f = func (x) => (import "./lib.ucg").v + x;\nlet y = f(1);\n'),
+    ('an import inside a map callback', 'let ys = map(func (x) => (import "./lib.ucg").v + x, [1, 2]);\n'),
+    ('an import inside a module that is instantiated', 'let m = module {a = 1} => (r) { let l = import "./lib.ucg"; let r = l.v + mod.a; };\nlet i = m{a = 2};\n'),
+    ('an import inside a format expression', 'let s = "@{(import \\"./lib.ucg\\").v + item}" % 1;\n'),
+    ('an include', 'let s = include str "data.txt";\n'),
+    ('an include of a data format', 'let j = include json "data.json";\n'),
+    ('a function definition and call', 'let f = func (x) => x + 1;\nlet y = f(1);\n'),
+    ('a module definition and instantiation', 'let m = module {a = 1} => { let r = mod.a + 1; };\nlet i = m{a = 2};\n'),
+    ('a format expression', 'let s = "@-@" % (1, "two");\n'),
+    ('a convert expression', 'let s = convert json {a = 1};\nlet t = convert yaml [1, 2];\n'),
+    ('a select and a range', 'let s = select (true, 0) => { true = 1:3 };\n'),
+    ('map, filter and reduce', 'let l = reduce(func (acc, x) => acc + x, 0, filter(func (x) => x > 1, map(func (x) => x * 2, [1, 2, 3])));\n'),
+    ('an assert statement', 'assert { ok = 1 == 1, desc = "fine" };\n'),
+    ('a trace expression', 'let t = TRACE 1 + 1;\n'),
+    ('a copy expression', 'let base = {a = 1};\nlet c = base{a = 2, b = self.a};\n'),
+    ('a let with a constraint', 'let n :: 0 = 5;\n'),
+    ('fifty let statements', ''.join('let k%d = %d;\n' % (i, i) for i in range(50))),
+]
+# an import of a file WITH an out statement of its own: what that import does (libout.json is written on the pinned tree) is not C14's statement for the
+# importing file; only the two-outs verdict of the importing file is demanded, the control is not.
+BETWEEN_NO_CONTROL = [('an import of a file with an out statement of its own', 'let lo = import "./libout.ucg";\n')]
+AFTER = [('nothing', ''), ('a let statement', 'let z = 1;\n'), ('a failing constraint', 'let z :: "" = 1;\n'), ('a fail expression', 'let z = fail "stop";\n'), ('an import', 'let la = import "./lib.ucg";\n')]
+OUT_VALUE = {'json': '{w = "%s"}', 'yaml': '{w = "%s"}', 'yamlmulti': '[{w = "%s"}]', 'toml': '{w = "%s"}', 'env': '{W = "%s"}', 'flags': '{w = "%s"}', 'exec': '{command = "%s"}',
+             'xml': '{root = {name = "%s"}}'}
+FORMAT_PAIRS = [('json', 'json'), ('json', 'yaml'), ('yaml', 'json'), ('toml', 'env'), ('flags', 'flags'), ('env', 'json'), ('yaml', 'yamlmulti'), ('exec', 'xml'), ('xml', 'toml'), ('yaml', 'yaml')]
+
+
+def standin_second_out_refused(tier, seed):
+    import concurrent.futures
+    name = 'second_out_refused'
+    rnd = random.Random(seed + 14)
+    between = BETWEEN + BETWEEN_NO_CONTROL
+    files = []      # (file name, source, kind 'two' | 'three' | 'control', description, first format, second format)
+    for bi, (bwhat, btxt) in enumerate(between):
+        pairs = FORMAT_PAIRS if tier == 'thorough' else [FORMAT_PAIRS[(bi + seed) % len(FORMAT_PAIRS)]]
+        if tier != 'thorough' and 'import' in bwhat and pairs[0][0] != pairs[0][1]:
+            pairs.append(FORMAT_PAIRS[0])          # quick: imports with the same format twice as well
+        for pi, (f1, f2) in enumerate(pairs):
+            afters = AFTER if tier == 'thorough' and pi < 2 else [AFTER[(bi + pi + seed) % len(AFTER)]]
+            for ai, (awhat, atxt) in enumerate(afters):
+                pre = 'let before = 1;\n' if (bi + pi + ai) % 2 else ''
+                src = pre + 'out %s %s;\n' % (f1, OUT_VALUE[f1] % 'FIRST') + btxt + 'out %s %s;\n' % (f2, OUT_VALUE[f2] % 'SECOND') + atxt
+                files.append(('t%d_%d_%d' % (bi, pi, ai), src, 'two', 'between the outs: %s; after them: %s' % (bwhat, awhat), f1, f2))
+        if (bwhat, btxt) not in BETWEEN_NO_CONTROL:
+            f1 = FORMAT_PAIRS[(bi + seed) % len(FORMAT_PAIRS)][0]
+            files.append(('c%d' % bi, btxt + 'out %s %s;\n' % (f1, OUT_VALUE[f1] % 'FIRST') + (btxt.replace('let ', 'let again_') if 'import' in btxt and '@{' not in btxt else ''), 'control',
+                          'ONE out statement; before (and, for imports, again after) it: %s' % bwhat, f1, None))
+    # three outs, the import between the second and the third
+    files.append(('three', 'out json {w = "FIRST"};\nout yaml {w = "SECOND"};\nlet l = import "./lib.ucg";\nout toml {w = "SECOND"};\n', 'two', 'three outs, an import before the third', 'json', 'toml'))
+    bound = ('%d files with two out statements: %d kinds of statements between them (nothing, comments, lets, imports -- plain, used, nested, repeated, of two files, from std, inside a called function / map callback / '
+             'instantiated module / format expression, of a file with its own out --, includes, function / module use, format, convert, select, range, map / filter / reduce, assert, TRACE, copy, constraint, 50 lets) x '
+             '%s format pairs (same and different extensions) x what follows (nothing, a let, a failing constraint, a fail, an import; %s), each built on its own: exit status != 0 and no artifact of the second out; '
+             '+ %d control files with ONE out behind the same statements: exit 0, exactly one artifact holding the value (quick: built by one invocation)'
+             % (len([f for f in files if f[2] == 'two']), len(between), 'all %d' % len(FORMAT_PAIRS) if tier == 'thorough' else '1..2 of %d' % len(FORMAT_PAIRS), 'all for 2 pairs' if tier == 'thorough' else 'rotating',
+                len([f for f in files if f[2] == 'control'])))
+    work = tempfile.mkdtemp(prefix='verif_c14s_')
+    helpers = {'lib.ucg': 'let v = 7;\nlet name = "lib";\n', 'lib2.ucg': 'let l = import "./lib.ucg";\nlet v = l.v + 1;\n', 'libout.ucg': 'let v = 9;\nout json {lib = v};\n', 'data.txt': 'some text\n',
+               'data.json': '{"a": [1, 2]}\n'}
+
+    def run_one(item):
+        fn, src, kind, what, f1, f2 = item
+        d = os.path.join(work, fn)
+        os.mkdir(d)
+        for h, txt in helpers.items():
+            open(os.path.join(d, h), 'w').write(txt)
+        open(os.path.join(d, fn + '.ucg'), 'w').write(src)
+        before = tree(d)
+        rc, so, se = R.run_ucg(['build', fn + '.ucg'], d)
+        new = sorted(tree(d) - before)
+        inp = dict(source={fn + '.ucg': src, **{h: t for h, t in helpers.items() if h in src}}, how='the files in a fresh directory; `ucg build %s.ucg` there; exit status and directory listing' % fn)
+        if kind == 'control':
+            art = '%s.%s' % (fn, EXT[f1])
+            got = rd(os.path.join(d, art))
+            if rc != 0 or [x for x in new if not x.startswith('lib')] != [art] or got is None or b'FIRST' not in got:
+                return dict(detail='a file with ONE out statement (%s): exit status %d, new files %s, %s %s' % (what, rc, new, art, 'missing' if got is None else 'holds %r' % got[:80]),
+                            expected='exit 0 and exactly one new file %s holding the value' % art, observed='rc=%d, new files %s, output: %s' % (rc, new, (so + se)[-400:]), **inp)
+            return None
+        if rc == 0:
+            return dict(detail='a file with two out statements builds (%s): `%s`; new files: %s' % (what, src.replace('\n', ' ')[:300], new), expected='a build error (exit status != 0): a second out statement in the same file',
+                        observed='rc=0, new files %s %s' % (new, {x: (rd(os.path.join(d, x)) or b'')[:100].decode('utf-8', 'replace') for x in new}), **inp)
+        second = [x for x in new if x.startswith(fn + '.') and b'SECOND' in (rd(os.path.join(d, x)) or b'')]
+        if second or (EXT[f2] != EXT[f1] and '%s.%s' % (fn, EXT[f2]) in new):
+            return dict(detail='the refused second out statement left an artifact (%s): %s' % (what, second or '%s.%s' % (fn, EXT[f2])), expected='exit status != 0 and no artifact of the second out',
+                        observed='rc=%d, new files %s' % (rc, {x: (rd(os.path.join(d, x)) or b'')[:100].decode('utf-8', 'replace') for x in new}), **inp)
+        return None
+    def controls_together(items):
+        """all control files in one directory, one invocation: True if everything is as demanded (else they are run one by one for the report)"""
+        d = os.path.join(work, 'controls')
+        os.mkdir(d)
+        for h, txt in helpers.items():
+            open(os.path.join(d, h), 'w').write(txt)
+        for fn, src, kind, what, f1, f2 in items:
+            open(os.path.join(d, fn + '.ucg'), 'w').write(src)
+        before = tree(d)
+        rc, so, se = R.run_ucg(['build'] + [it[0] + '.ucg' for it in items], d, timeout=600)
+        want = set('%s.%s' % (it[0], EXT[it[4]]) for it in items)
+        return rc == 0 and tree(d) - before == want and all(b'FIRST' in (rd(os.path.join(d, a)) or b'') for a in want)
+    try:
+        R.ucg_binary()
+        ctl = [f for f in files if f[2] == 'control']
+        todo = [f for f in files if f[2] != 'control']
+        if tier == 'thorough' or not controls_together(ctl):
+            todo += ctl
+        with concurrent.futures.ThreadPoolExecutor(max_workers=8) as ex:
+            res = list(ex.map(run_one, todo))
+    finally:
+        shutil.rmtree(work, ignore_errors=True)
+    for r in res:
+        if r is not None:
+            return viol(name, bound, len(files), r.pop('detail'), **r)
+    return dict(name=name, bound=bound, cases=len(files), status='ok')
+
+
+STANDINS = [standin_out_equals_convert, standin_artifact_name, standin_second_out_refused]
